@@ -182,9 +182,13 @@ func (t *Template) Format() Format {
 // UsedVars returns the names of the global variables used in the template.
 // A variable used in dead code may not be returned as used.
 func (t *Template) UsedVars() []string {
-	vars := make([]string, len(t.globals))
-	for i, global := range t.globals {
-		vars[i] = global.Name
+	// t.globals also holds the package-level variables of the imported
+	// template files and the variables of the native packages.
+	vars := make([]string, 0, len(t.globals))
+	for _, global := range t.globals {
+		if global.Pkg == "main" {
+			vars = append(vars, global.Name)
+		}
 	}
 	sort.Strings(vars)
 	return vars
